@@ -127,7 +127,7 @@ def check_tag_by_scheme(ctx, rule, P, f, sink_names, tag_index, purpose="sig", r
             # contradictory assignment (e.g. commitment variant != signature variant): handled by diagonal rules
             continue
         for s in sites:
-            if tag_index >= len(s.args):
+            if tag_index >= len(s.args) or -tag_index > len(s.args):
                 continue
             t = B.peel(strip_sites(spec_inline(P, ev, s.args[tag_index], 2)))
             tag = t.a[0] if t.op == "assoc" else None
